@@ -52,6 +52,10 @@ CLAIMED = {
          "On the model of C02 it is proved that replacing every configuration number c of an ensemble by a*c+b (a >= 1) leaves every output of the analysis unchanged (gap, extents, expanded arrays and therefore window, tau_int, errors, rho, drho), that the FFT path computes the direct sums, that the outcome depends only on the data and the effective parameters (explicit argument over per-ensemble dictionary over global default) after any history of parameter changes and other analyses, that the cumulative tau_int stays above 1/2 and the bias factor is >= 1. "
          "On the implementation, metamorphic pairs (fft on/off, shift, scale for range- and list-type lists, rename, replica order, added constant, data multiplied by c) and random histories (global / dictionary changes, analyses of the same and other objects, arithmetic) are run; Coq judges equality of all outputs (errors scaled by |c|), the effective parameters against the precedence model, and the outcome against a fresh copy; value, fluctuations and configuration lists are snapshotted around every analysis; deriving from analysed vs fresh objects is compared bit for bit.",
          "partial: invariance under replica renaming / order, added constants and the |c| scaling are covered by the metamorphic correspondence only (no theorem); the history theorem is about the functional model (mutable class attributes are tied by the history correspondence).", "§3 C03"),
+ "C06": ("proof", "Coq theorems (symmetry by construction, unit diagonal, diagonal = err^2, Cauchy-Schwarz bound |corr| <= 1 for any chain length, zero for disjoint observables, sort_corr = induced permutation, smoothing normalises the trace) over a hand model parametrised by a square-root function + in-Coq correspondence against model and lookup-based specification",
+         "covariance / _covariance_element / _intersection_idx / sort_corr are transcribed (Obs/Cov.v); the element is sum over shared ensembles of (sum_r s_r) / (sum_r sqrt(a_r b_r)) over the COMMON configurations plus J1 Sigma J2. Proved: the matrix is symmetric, the correlation matrix has unit diagonal and the covariance diagonal equals the squared errors (for every function with the contract of the real square root), the Pearson correlation of any two fluctuation vectors lies in [-1, 1] (Cauchy-Schwarz proved over Q for all lengths), disjoint observables have covariance 0, sort_corr is the permutation induced by sorting the keys, eigenvalue smoothing leaves the eigenvalue sum equal to the dimension. "
+         "Implementation lists (nested, partly overlapping, equal-extent differently gapped lists, missing replicas, shared covariance inputs) are judged in Coq against the model (intersection + row selection) and against a specification that pairs by configuration number; permutation equivariance, the Cholesky-based inverse, smoothing and error_band are judged through their defining identities.",
+         "partial: positive semi-definiteness on identical configurations, the Cholesky inverse, smoothing and error_band are validated numerically through identities (LAPACK is an oracle); the executable model uses an integer-sqrt based rational square root (64 extra bits) whose accuracy is not separately proved.", "§3 C06"),
 }
 NOT_YET = "check not built yet in this session (work in progress; see DESIGN.md §6 for the order of work)"
 
